@@ -90,6 +90,19 @@ func reachesFn(p *Program, fn, target *ssa.Function) bool {
 }
 
 func checkC10(p *Program, r *Report) {
+	// round 6 (systematic): "matches exactly when the filter contains …" stands on the filter primitives C09 decides:
+	// writer/reader agreement, the index formula, monotone bits, the unloaded filter, what the branches may read
+	r.Borrow("C09", func(o *Ob) (string, bool) {
+		switch o.Rule {
+		case "C09.agree", "C09.formula", "C09.monotone", "C09.unloaded", "C09.decides", "C09.pure":
+			return "C10.filter", true
+		}
+		return "", false
+	})
+	r.Floor("C10.filter", 10)
+	// round 6 (systematic): no unguarded mutable package-level state behind this property's functions (§2.9)
+	sharedStateRule(p, r, NewEffects(p), "C10.shared", []string{"bloom/filter.go", "bloom/merkleblock.go", "bloom/murmurhash3.go", "tx.go"})
+	r.Floor("C10.shared", 0)
 	r.Explain = "Structural facts without which some relevant transaction or outpoint is necessarily missed. C10.scanall: the transaction matcher examines every output " +
 		"before any verdict (the output loop exits only by exhaustion and dominates every return). C10.outpoint: the (script, txid, index) handed to the update " +
 		"helper belong to the same output. C10.flags: the helper inserts unconditionally for BloomUpdateAll, exactly for {pay-to-pubkey, multisig} for " +
